@@ -3,7 +3,6 @@ package pilosa
 // Deterministic witnesses of the C29 findings.
 
 import (
-	"bytes"
 	"fmt"
 	"io/ioutil"
 	"os"
@@ -27,16 +26,15 @@ func TestVerifWitness_DC4(t *testing.T) {
 	for k := uint64(0); k < 4; k++ {
 		b.DirectAdd(k << 16)
 	}
-	// a clearing roaring import leaves the emptied containers in place
-	var buf bytes.Buffer
-	if _, err := b.WriteTo(&buf); err != nil {
-		t.Fatal(err)
-	}
-	if _, _, err := b.ImportRoaringBits(buf.Bytes(), true, false, 0); err != nil {
-		t.Fatal(err)
+	// (lead) removing the last value of a container leaves its key behind with an emptied container
+	// (a clearing roaring import used to do the same until that was repaired as DS5)
+	for k := uint64(0); k < 4; k++ {
+		if _, err := b.Remove(k << 16); err != nil {
+			t.Fatal(err)
+		}
 	}
 	if b.Containers.Size() != 4 || b.Count() != 0 {
-		t.Skipf("precondition: a clearing import keeps the emptied containers (have %d containers, %d bits)", b.Containers.Size(), b.Count())
+		t.Skipf("precondition: removes keep the emptied containers (have %d containers, %d bits)", b.Containers.Size(), b.Count())
 	}
 	b.Optimize()
 	if n := b.Containers.Size(); n != 0 {
